@@ -721,6 +721,7 @@ _R_ASSUME = [
     "engine R: only LockIds whose earlier lock requests all had Timeout 0 are re-locked/updated (engine A's LockId assumption)",
     "engine R: the wall clock is not stepped during a case (a case in which wall and monotonic clock diverge by > 2 ms is discarded)",
     "engine R: sub-granularity is not judged: a millisecond timer may fire up to 2 ms before T (two truncations to whole ms)",
+    "engine R: second- and minute-granularity periods are counted in server time: the lower bound starts at the beginning of the server second sampled when the request was handed over (a period may end up to that second's elapsed part earlier than T of wall time)",
     "engine R: an update that shortens the deadline, or moves it by <= 1 unit, is not judged for lateness",
     "engine R: lateness is judged only when the measured scheduling delay of the process stayed below 200 ms; cases that could not be kept on schedule are discarded (counted)",
     "engine R: cases run 4 at a time per process on separate instances; a failure is reported only if it recurs when the case is executed again",
